@@ -60,10 +60,12 @@ def splitmix (st : UInt64) : UInt64 × UInt64 :=
 
 def dim (y : Int) (m : Nat) : Nat := daysInMonth y m
 
-def stepCombo (p : Acc × UInt64) : Acc × UInt64 :=
+def stepCombo (near : Bool) (p : Acc × UInt64) : Acc × UInt64 :=
   let (a, st) := p
   let (st, r1) := splitmix st; let (st, r2) := splitmix st; let (st, r3) := splitmix st
-  let z : Int := (r1 % 3652059).toNat - 719162; let ms : Int := (r2 % 86400000).toNat; let k : Int := (r3 % 48001).toNat - 24000
+  let z : Int := if !near then (r1 % 3652059).toNat - 719162 else if (r1 >>> 40) &&& 1 == 0 then (r1 % 1025).toNat - 512 else (r1 % 140001).toNat - 70000
+  let ms : Int := if near && (r2 >>> 40) &&& 1 == 0 then ((r2 % 86400) * 1000).toNat else (r2 % 86400000).toNat
+  let k : Int := if near then (r3 % 241).toNat - 120 else (r3 % 48001).toNat - 24000
   let (y, m, d) := civilFromDays z
   let h := ms / 3600000; let mi := ms / 60000 % 60; let s := ms / 1000 % 60; let ml := ms % 1000
   match fnum (encodeDate [n y, n m, n d]), fnum (encodeTime [n h, n mi, n s, n ml]) with
@@ -138,7 +140,8 @@ def run : List String → Option String
       | "d" => (List.range c).foldl (fun (a : Acc) (i : Nat) => stepDate a (s + Int.ofNat i)) {}
       | "t" => (List.range c).foldl (fun (a : Acc) (i : Nat) => stepMs a (s + Int.ofNat i)) {}
       | "r" => (List.range c).foldl (fun (a : Acc) (i : Nat) => stepReject a (s + Int.ofNat i)) {}
-      | _ => (iterate stepCombo c ({}, UInt64.ofNat (s.toNat % 2^64))).1
+      | "n" => (iterate (stepCombo true) c ({}, UInt64.ofNat (s.toNat % 2^64))).1
+      | _ => (iterate (stepCombo false) c ({}, UInt64.ofNat (s.toNat % 2^64))).1
     some s!"viol {a.viol} digest {hex16 a.digest}"
   | _ => none
 
